@@ -4,7 +4,9 @@ package main
 
 import (
 	"fmt"
+	"strconv"
 	"strings"
+	"sync"
 	"time"
 
 	"github.com/google/mtail/internal/metrics"
@@ -136,6 +138,19 @@ func init() {
 				}
 				g.emit("pair", hxs(a), hxs(b))
 			}
+			// the same new tuple looked up by several goroutines at once
+			nc, rounds := 12, 300
+			if g.thorough() {
+				nc, rounds = 60, 1500
+			}
+			for i := 0; i < nc; i++ {
+				ar := 1 + i%4
+				t := make([]string, ar)
+				for j := range t {
+					t[j] = g.r.pick(small)
+				}
+				g.emit("conc", hxs(t), strconv.Itoa([]int{2, 4, 8, 16}[i%4]), strconv.Itoa(rounds))
+			}
 		},
 		run: c08Run,
 	}
@@ -155,8 +170,65 @@ func eqTuple(a, b []string) bool {
 	return true
 }
 
+// c08Conc: W goroutines look the same new tuple up at the same moment; whatever the schedule, equal
+// tuples name one datum.
+func c08Conc(t []string, workers, rounds int) (n, distinct int, sum int64) {
+	keys := make([]string, len(t))
+	for i := range keys {
+		keys[i] = fmt.Sprintf("k%d", i)
+	}
+	for round := 0; round < rounds; round++ {
+		m := metrics.NewMetric("m", "p", metrics.Counter, metrics.Int, keys...)
+		start := make(chan struct{})
+		got := make([]datum.Datum, workers)
+		var wg sync.WaitGroup
+		for w := 0; w < workers; w++ {
+			wg.Add(1)
+			go func(w int) {
+				defer wg.Done()
+				<-start
+				d, err := m.GetDatum(t...)
+				if err == nil {
+					datum.IncIntBy(d, 1, time.Unix(1000, 0))
+					got[w] = d
+				}
+			}(w)
+		}
+		close(start)
+		wg.Wait()
+		seen := map[datum.Datum]bool{}
+		for _, d := range got {
+			seen[d] = true
+		}
+		m.RLock()
+		n = len(m.LabelValues)
+		m.RUnlock()
+		distinct = len(seen)
+		sum = 0
+		if lv := m.FindLabelValueOrNil(t); lv != nil {
+			sum = datum.GetInt(lv.Value)
+		}
+		if n != 1 || distinct != 1 || sum != int64(workers) {
+			return
+		}
+	}
+	return
+}
+
 func c08Run(r *runCtx, id string, f []string) {
 	switch f[0] {
+	case "conc":
+		t := unhxs(f[1])
+		workers, _ := strconv.Atoi(f[2])
+		rounds, _ := strconv.Atoi(f[3])
+		n, distinct, sum := c08Conc(t, workers, rounds)
+		r.obs(id, "n=%d distinct=%d sum=%d", n, distinct, sum)
+		if n != 1 || distinct != 1 || sum != int64(workers) {
+			r.fail(id, "tuple-aliasing", "%d goroutines looked up the new tuple %s at the same time: the metric stores %d label values for it, the callers got %d different data, and the stored value is %d after %d increments", workers, hxs(t), n, distinct, sum, workers)
+		} else {
+			r.ok(id)
+		}
+		r.stat("conc")
 	case "key":
 		t := unhxs(f[1])
 		k := metrics.VerifBuildLabelValueKey(t)
